@@ -2,6 +2,7 @@ package main
 
 import (
 	"fmt"
+	"go/types"
 	"sort"
 	"strings"
 
@@ -75,7 +76,7 @@ func runC11(c *Ctx) {
 	R.Rule("R-param-flow", "E4 value flow + E3", "each option field is stored only in its own parameter's case from the decoded value; the envelope path given to the backend is the parser's result", 14)
 	flows := map[string][]fieldFlow{
 		"(*Conn).handleMail": {
-			{"st:MailOptions.Size", "SIZE", `^strconv\.ParseUint\(next#2,10,32\)#0$`},
+			{"st:MailOptions.Size", "SIZE", `@parseuint`},
 			{"st:MailOptions.UTF8", "SMTPUTF8", `^true$`},
 			{"st:MailOptions.RequireTLS", "REQUIRETLS", `^true$`},
 			{"st:MailOptions.Body", "BODY", `^strings\.ToUpper\(next#2\)$`},
@@ -106,7 +107,33 @@ func runC11(c *Ctx) {
 			}
 			for _, site := range sites {
 				R.Ob(c.siteKey(site, x.label+" inside case "+x.key), c.P.InstrPos(site), keyOf(c, site, tag) == x.key, "stored in the case of key "+keyOf(c, site, tag))
-				if x.value != "" {
+				if x.value == "@parseuint" {
+					_, _, v := storedField(site)
+					pu, steps, ok := parseUintOrigin(v, 0)
+					okSrc := ok && argInCallerFrame(pu.Call.Args[0], steps) == "next#2"
+					R.Ob(c.siteKey(site, x.label+" value source"), c.P.InstrPos(site), okSrc, "stored value is "+describe(v)+", not the parsed parameter value")
+					// the failure of the parse (or of the helper wrapping it) must not reach the store
+					if ok {
+						errAtom := describe(pu) + "#1 != nil"
+						if len(steps) > 0 {
+							errAtom = describe(steps[0].call) + fmt.Sprintf("#%d != nil", steps[0].call.Type().(*types.Tuple).Len()-1)
+							// inside the helper: success returns are unreachable when ParseUint failed
+							g := staticCallee(&steps[len(steps)-1].call.Call)
+							allInstrs(g, func(in ssa.Instruction) {
+								if r, isR := in.(*ssa.Return); isR && in.Block() != g.Recover {
+									vals := returnedValues(r)
+									last := vals[len(vals)-1]
+									if isNilConst(last) {
+										c.obUnreach("helper success", in, describe(pu)+"#1 != nil")
+									} else if d := describe(last); d != describe(pu)+"#1" && !valueKnownNonNil(last) {
+										R.Ob(c.siteKey(in, "helper passes the parse error on"), c.P.InstrPos(in), false, "helper returns error "+d+" instead of the parse error")
+									}
+								}
+							})
+						}
+						c.obUnreach(x.label, site, errAtom)
+					}
+				} else if x.value != "" {
 					_, _, v := storedField(site)
 					d := describe(v)
 					ok := regexpMatch(x.value, d)
@@ -146,7 +173,6 @@ func runC11(c *Ctx) {
 		{"(*Conn).handleMail", `cutPrefixFold(param1,"FROM:")#1 == false`, []string{lMail}},
 		{"(*Conn).handleMail", `(*parser).parseReversePath(alloc:p)#1 != nil`, []string{lMail}},
 		{"(*Conn).handleMail", `parseArgs(parser.s)#1 != nil`, []string{lMail}},
-		{"(*Conn).handleMail", `strconv.ParseUint(next#2,10,32)#1 != nil`, []string{"st:MailOptions.Size"}},
 		{"(*Conn).handleMail", `decodeXtext(next#2)#1 != nil`, []string{"st:MailOptions.EnvelopeID", "st:MailOptions.Auth"}},
 		{"(*Conn).handleMail", `decodeXtext(next#2)#0 == ""`, []string{"st:MailOptions.EnvelopeID"}},
 		{"(*Conn).handleMail", `isPrintableASCII(decodeXtext(next#2)#0) == false`, []string{"st:MailOptions.EnvelopeID"}},
